@@ -108,7 +108,19 @@ func scenarioBastionE2E(t *traceWriter, rng *rand.Rand) {
 		err error
 	}
 	ch := make(chan accepted, 1)
-	go func() { c, err := ln.Accept(); ch <- accepted{c, err} }()
+	go func() {
+		// the first connection attempt is cut off before the TLS handshake (a bastion that is restarting): the witness has to
+		// shrug that off and call in again
+		if c, err := ln.Accept(); err == nil {
+			if tc, ok := c.(*tls.Conn); ok {
+				_ = tc.NetConn().Close()
+			} else {
+				_ = c.Close()
+			}
+		}
+		c, err := ln.Accept()
+		ch <- accepted{c, err}
+	}()
 	var conn net.Conn
 	select {
 	case a := <-ch:
